@@ -3,10 +3,12 @@
   One request per line on stdin, one answer per line on stdout.
 -/
 import YalafiVerif.Model.Proto
+import YalafiVerif.Model.Tex2txt
 import YalafiVerif.Generated.Tables
 open Yalafi Yalafi.Proto
 
-def T : Tables := Yalafi.Generated.theTables
+def PT : PTables := Yalafi.Generated.theTables
+def T : Tables := PT.toTables
 
 def opScan : R (List String) := do
   let src ← str
@@ -71,6 +73,26 @@ def opML : R (List String) := do
     pure (["ok"] ++ encParts parts ++
       (toString lc'.length :: (lc'.map (fun e => encStr e.1 :: toString e.2.length :: e.2.map encStr)).flatten))
 
+def opT2T : R (List String) := do
+  let lang ← str; let pack ← str; let dcls ← str; let extr ← str
+  let seqs ← bool; let nosp ← bool; let unkn ← bool
+  let defs ← str
+  let multi ← bool; let thresh ← nat
+  let hasRepl ← bool
+  let repl ← list str
+  let files ← list (do let n ← str; let c ← str; pure (n, c))
+  let fuel ← nat
+  let src ← str
+  let o : Options := { lang := lang, pack := pack, dcls := dcls, defs := defs, extr := extr, seqs := seqs,
+                       nosp := nosp, unkn := unkn, repl := repl, hasRepl := hasRepl }
+  match tex2txt PT fuel src o multi thresh files with
+  | .fatal m => pure ["fatal", encStr m]
+  | .crash c => pure ["crash", c]
+  | .outOfFuel => pure ["fuel"]
+  | .ok r =>
+    pure (["ok"] ++ encToks r.toks ++ encTxtPos (r.txt, r.pos) ++ encParts r.parts
+          ++ (toString r.unknowns.length :: r.unknowns.map encStr) ++ encDiags r.diags)
+
 def dispatch (op : String) : R (List String) :=
   match op with
   | "SCAN" => opScan
@@ -81,6 +103,7 @@ def dispatch (op : String) : R (List String) :=
   | "REPL" => opRepl
   | "SPANS" => opSpans
   | "ML" => opML
+  | "T2T" => opT2T
   | _ => throw s!"unknown op {op}"
 
 def handle (line : String) : String :=
